@@ -4,7 +4,7 @@
 From Coq Require Import String.
 From Coq Require Extraction.
 From Coq Require ExtrOcamlBasic.
-From Ldlm Require Import Model.Base Model.Err Model.Seq Model.Track.
+From Ldlm Require Import Model.Base Model.Err Model.Seq Model.Track Model.SeqFile.
 From Ldlm Require Import Gen.ErrTables.
 
 Definition tags_bytes (l : list (nat * string)) : list (nat * list byte) :=
@@ -124,9 +124,36 @@ Definition code_name_b (c : code) : list byte := list_byte_of_string (code_name 
 Definition code_of_name_b (n : list byte) : option code :=
   if svc_tables_ok then head (List.filter (fun c => bool_decide (code_name_b c = n)) all_codes) else Some srv_default.
 
+(** ** T1 "boot on a given state file" (history line [F ...]; Model/SeqFile.v)
+
+    The harness wrote the file with the real store before the first boot; the history's first event is that boot
+    ([ERestart] from [file_state]). [server.New] ranges over a Go map: the sessions of the file are restored in an
+    unspecified order, and when a conflict (more entries of a lock than its size, different sizes) is spread over several
+    sessions the outcome depends on it. The trace does not show the order, so [replay_history_from_any] accepts the
+    observed history iff it is a run of Mseq for SOME order of the file's sessions at that first boot (every permutation,
+    for files of at most 4 sessions; the model's own order otherwise). When no order fits, the mismatch reported is the
+    one of the model's own order. Later restarts read files the server wrote itself (no conflicts left): their order is
+    the model's own, as in every other T1 history. *)
+Definition set_boot_order (order : list str) (h : list (event * list out)) : list (event * list out) :=
+  match h with
+  | (ERestart _, o) :: h' => (ERestart order, o) :: h'
+  | _ => h
+  end.
+Definition replay_history_from_any (p : proj) (cfg : config) (f : list (str * list clock)) (h : list (event * list out))
+  : option (nat * list (list out)) :=
+  match replay_history_from p cfg f h with
+  | None => None
+  | Some r =>
+      if (Nat.leb (length f) 4
+          && existsb (fun o => match replay_history_from p cfg f (set_boot_order o h) with None => true | Some _ => false end)
+                     (permutations (map fst f)))%bool
+      then None else Some r
+  end.
+
 Extraction "seqmodel.ml" replay_history track_failures_b inert_failures_b byte_to_N byte_of_N err_name_b all_errs
   proj_all Proj Config
-  replay_history_svc track_failures_svc_b srv_code code_name_b code_of_name_b code_repr code_class all_codes svc_tables_ok.
+  replay_history_svc track_failures_svc_b srv_code code_name_b code_of_name_b code_repr code_class all_codes svc_tables_ok
+  replay_history_from replay_history_from_any views_failures.
 
 (** Sanity of the class representatives, for whatever table was generated: the representative of an error's class has
     the error's code (so [canon_out] never changes a code), and it is idempotent. *)
